@@ -729,4 +729,3 @@ func replayConc(cs Case, reps int, st *concStats) {
 		judgeScenario(st, cs, rec, res, orc, bi)
 	}
 }
-
